@@ -19,10 +19,8 @@ theorem upd_other (f : Name → Nat) (k x : Name) (v : Nat) (h : x ≠ k) : upd 
 def newRow (s : St) (t : Name) (nk : Option Name) (i : Nat) (rs : Bool) : SRow :=
   { table := t, id := i, nick := nk, ord := nk.map (fun n => s.nickCtr n + 1), since := s.epoch, resaved := rs }
 
-def newTableCtr (s : St) (t : Name) (nk : Option Name) (i : Nat) : Name → Nat :=
-  match nk with
-  | some n => upd (upd s.tableCtr t (saveTableCtr i (s.tableCtr t))) n (s.nickCtr n + 1)
-  | none => upd s.tableCtr t (saveTableCtr i (s.tableCtr t))
+def newTableCtr (s : St) (t : Name) (_nk : Option Name) (i : Nat) : Name → Nat :=
+  upd s.tableCtr t (saveTableCtr i (s.tableCtr t))
 
 def newNickCtr (s : St) (nk : Option Name) : Name → Nat :=
   match nk with
@@ -102,20 +100,26 @@ theorem run_cons_ok {s s' : St} {op : Op} {ops : List Op} (h : run s (op :: ops)
 
 /-! ### trace conditions -/
 
-/-- Naming discipline of one `save_row` call relative to the nickname map `nm`: the table is not a
-    key of `nm`, and a row saved under nickname `n` goes to the table `nm` gives for `n`. -/
+/-- Naming discipline of one `save_row` call relative to the nickname map `nm`: a row saved under a
+    name that `nm` knows as a nickname goes to the table `nm` gives for it.  (Since fix 07a822a
+    nothing is required of table names: a nickname spelled like another table's name is harmless.) -/
 def WNSave (nm : List (Name × Name)) (t : Name) : Option Name → Prop
-  | some n => nm.lookup t = none ∧ nm.lookup n = some t
-  | none => nm.lookup t = none
+  | some n => nm.lookup n = some t ∨ nm.lookup n = none
+  | none => True
 
 instance (nm : List (Name × Name)) (t : Name) (nk : Option Name) : Decidable (WNSave nm t nk) := by
   cases nk <;> (simp only [WNSave]; infer_instance)
 
 theorem wnSave_iff {nm : List (Name × Name)} {t : Name} {nk : Option Name} (h : WNSave nm t nk) :
-    nm.lookup t = none ∧ ∀ n, nk = some n → nm.lookup n = some t := by
+    ∀ n, nk = some n → ∀ T, nm.lookup n = some T → t = T := by
   cases nk with
-  | none => exact ⟨h, fun n hn => by cases hn⟩
-  | some n' => exact ⟨h.1, fun n hn => by cases hn; exact h.2⟩
+  | none => intro n hn; cases hn
+  | some n' =>
+    intro n hn T hT
+    cases hn
+    rcases h with h | h
+    · rw [h] at hT; exact Option.some.inj hT
+    · rw [h] at hT; cases hT
 
 def WellNamedOp (nm : List (Name × Name)) : Op → Prop
   | .save t nk _ => WNSave nm t nk
@@ -195,23 +199,41 @@ theorem step_frame {s s1 : St} {op : Op} {o : Obs} (h : step s op = .ok (s1, o))
   · exact ⟨rfl, rfl, rfl⟩
   · obtain ⟨a, b, c, -, -⟩ := saveAll_frame rows hs; exact ⟨a, b, c⟩
 
+theorem run_nickToTable (ops : List Op) : ∀ (s s' : St), run s ops = .ok s' →
+    s'.nickToTable = s.nickToTable ∧ s'.tables = s.tables ∧ s'.prior = s.prior := by
+  induction ops with
+  | nil => intro s s' h; simp only [run, Except.ok.injEq] at h; subst h; exact ⟨rfl, rfl, rfl⟩
+  | cons op ops ih =>
+    intro s s' h
+    obtain ⟨s1, o, h1, h2⟩ := run_cons_ok h
+    obtain ⟨a1, a2, a3⟩ := step_frame h1
+    obtain ⟨b1, b2, b3⟩ := ih s1 s' h2
+    exact ⟨b1.trans a1, b2.trans a2, b3.trans a3⟩
+
+/-- With the empty nickname map the naming discipline is vacuous: statements about table names need
+    no naming hypothesis at all (since fix 07a822a). -/
+theorem wellNamed_nil (op : Op) : WellNamedOp [] op := by
+  cases op with
+  | save t nk i => cases nk <;> simp [WellNamedOp, WNSave]
+  | resave rows => intro x _; cases x.2.1 <;> simp [WNSave]
+  | pick a b c => trivial
+  | reset => trivial
+
 /-- Invariant induction over a successful run with the naming discipline and a state-dependent
     op condition `C` available at every step. -/
 theorem run_invariant (nm : List (Name × Name)) (C : St → Op → Prop) (P : St → Prop)
-    (hstep : ∀ s op s1 o, s.nickToTable = nm → P s → WellNamedOp nm op → C s op →
-      step s op = .ok (s1, o) → P s1) :
-    ∀ (ops : List Op) (s s' : St), s.nickToTable = nm → P s → (∀ op ∈ ops, WellNamedOp nm op) →
-      TraceC C s ops → run s ops = .ok s' → P s' ∧ s'.nickToTable = nm := by
+    (hstep : ∀ s op s1 o, P s → WellNamedOp nm op → C s op → step s op = .ok (s1, o) → P s1) :
+    ∀ (ops : List Op) (s s' : St), P s → (∀ op ∈ ops, WellNamedOp nm op) →
+      TraceC C s ops → run s ops = .ok s' → P s' := by
   intro ops
   induction ops with
-  | nil => intro s s' hnm hp _ _ h; simp only [run, Except.ok.injEq] at h; subst h; exact ⟨hp, hnm⟩
+  | nil => intro s s' hp _ _ h; simp only [run, Except.ok.injEq] at h; subst h; exact hp
   | cons op ops ih =>
-    intro s s' hnm hp hwn hd h
+    intro s s' hp hwn hd h
     obtain ⟨s1, o, h1, h2⟩ := run_cons_ok h
     have hd' := hd
     simp only [TraceC, h1] at hd'
-    exact ih s1 s' ((step_frame h1).1.trans hnm)
-      (hstep s op s1 o hnm hp (hwn op (by simp)) hd'.1 h1)
+    exact ih s1 s' (hstep s op s1 o hp (hwn op (by simp)) hd'.1 h1)
       (fun op' h' => hwn op' (by simp [h'])) hd'.2 h2
 
 theorem traceC_true (s : St) (ops : List Op) : TraceC (fun _ _ => True) s ops := by
@@ -225,23 +247,21 @@ theorem traceC_true (s : St) (ops : List Op) : TraceC (fun _ _ => True) s ops :=
 
 /-- The same without an op condition. -/
 theorem run_invariant' (nm : List (Name × Name)) (P : St → Prop)
-    (hstep : ∀ s op s1 o, s.nickToTable = nm → P s → WellNamedOp nm op →
-      step s op = .ok (s1, o) → P s1) :
-    ∀ (ops : List Op) (s s' : St), s.nickToTable = nm → P s → (∀ op ∈ ops, WellNamedOp nm op) →
-      run s ops = .ok s' → P s' ∧ s'.nickToTable = nm :=
-  fun ops s s' hnm hp hwn h =>
-    run_invariant nm (fun _ _ => True) P (fun s op s1 o a b c _ e => hstep s op s1 o a b c e)
-      ops s s' hnm hp hwn (traceC_true s ops) h
+    (hstep : ∀ s op s1 o, P s → WellNamedOp nm op → step s op = .ok (s1, o) → P s1) :
+    ∀ (ops : List Op) (s s' : St), P s → (∀ op ∈ ops, WellNamedOp nm op) →
+      run s ops = .ok s' → P s' :=
+  fun ops s s' hp hwn h =>
+    run_invariant nm (fun _ _ => True) P (fun s op s1 o a b _ e => hstep s op s1 o a b e)
+      ops s s' hp hwn (traceC_true s ops) h
 
 /-- Lifting a `save`-level and a `reset`-level preservation lemma to `step`; `SC s t i rs` is the
-    side condition on a single save, `OC` the op condition it is derived from. -/
+    side condition on a single save. -/
 theorem step_lift (nm : List (Name × Name)) (P : St → Prop) (SC : St → Name → Nat → Bool → Prop)
-    (hsave : ∀ s t nk i rs s', s.nickToTable = nm → P s → WNSave nm t nk → SC s t i rs →
+    (hsave : ∀ s t nk i rs s', P s → WNSave nm t nk → SC s t i rs →
       save s t nk i rs = .ok s' → P s')
     (hreset : ∀ s, P s → P (resetLocals s))
-    (htrans : ∀ s t nk i s' t' i', s.nickToTable = nm → WNSave nm t nk → nm.lookup t' = none →
-      save s t nk i true = .ok s' → SC s t' i' true → SC s' t' i' true)
-    (s : St) (op : Op) (s1 : St) (o : Obs) (hnm : s.nickToTable = nm) (hp : P s)
+    (htrans : ∀ s t nk i s' t' i', save s t nk i true = .ok s' → SC s t' i' true → SC s' t' i' true)
+    (s : St) (op : Op) (s1 : St) (o : Obs) (hp : P s)
     (hw : WellNamedOp nm op)
     (hc : match op with
       | .save t _ i => SC s t i false
@@ -249,7 +269,7 @@ theorem step_lift (nm : List (Name × Name)) (P : St → Prop) (SC : St → Name
       | _ => True)
     (h : step s op = .ok (s1, o)) : P s1 := by
   rcases step_ok_cases h with ⟨t, nk, i, rfl, hs⟩ | ⟨_, _, _, -, rfl⟩ | ⟨-, rfl⟩ | ⟨rows, s2, rfl, hs, rfl⟩
-  · exact hsave s t nk i false s1 hnm hp hw hc hs
+  · exact hsave s t nk i false s1 hp hw hc hs
   · exact hp
   · exact hreset s hp
   · apply hreset
@@ -261,11 +281,9 @@ theorem step_lift (nm : List (Name × Name)) (P : St → Prop) (SC : St → Name
     | cons x rest ih =>
       obtain ⟨sa, h1, h2⟩ := saveAll_cons_ok hs
       have hwx := hw x (by simp)
-      refine ih sa ((save_frame h1).1.trans hnm)
-        (hsave s x.1 x.2.1 x.2.2 true sa hnm hp hwx (hc x (by simp)) h1)
+      refine ih sa (hsave s x.1 x.2.1 x.2.2 true sa hp hwx (hc x (by simp)) h1)
         (fun y hy => hw y (by simp [hy])) (fun y hy => ?_) h2
-      exact htrans s x.1 x.2.1 x.2.2 sa y.1 y.2.2 hnm hwx (wnSave_iff (hw y (by simp [hy]))).1 h1
-        (hc y (by simp [hy]))
+      exact htrans s x.1 x.2.1 x.2.2 sa y.1 y.2.2 h1 (hc y (by simp [hy]))
 
 /-! ### the range computation, unfolded -/
 
@@ -276,7 +294,7 @@ theorem pickRange_nick (s : St) (n T : Name) (sc : Scope) (hn : s.nickToTable.lo
     pickRange s n sc =
       if sc = .other then .error .badScope
       else if s.nickCtr n = 0 then .error .noRows
-      else .ok { nick := some n, table := T, lo := fallback (minIdOf sc (s.localCtr n)) (s.nickCtr n),
+      else .ok { nick := some n, table := T, lo := fallback (minIdOf sc (s.localNick n)) (s.nickCtr n),
                  hi := s.nickCtr n } := by
   unfold pickRange minIdOf
   simp only [hn]
@@ -316,22 +334,20 @@ structure NickInv (s : St) (n T : Name) : Prop where
   tbl : ∀ r ∈ s.rows, r.nick = some n → r.table = T
   ordle : ∀ r ∈ s.rows, r.nick = some n → ∃ k, r.ord = some k ∧ 1 ≤ k ∧ k ≤ s.nickCtr n
   ex : ∀ k, 1 ≤ k → k ≤ s.nickCtr n → ∃ r ∈ s.rows, r.nick = some n ∧ r.ord = some k
-  tc : s.tableCtr n = s.nickCtr n
-  lc : s.localCtr n ≤ s.nickCtr n
-  win : ∀ r ∈ s.rows, r.nick = some n → ∀ k, r.ord = some k → (r.since = s.epoch ↔ s.localCtr n < k)
+  lc : s.localNick n ≤ s.nickCtr n
+  win : ∀ r ∈ s.rows, r.nick = some n → ∀ k, r.ord = some k → (r.since = s.epoch ↔ s.localNick n < k)
   ep : ∀ r ∈ s.rows, r.since ≤ s.epoch
 
 theorem nickInv_save (nm : List (Name × Name)) (n T : Name) (hn : nm.lookup n = some T)
     (s : St) (t : Name) (nk : Option Name) (i : Nat) (rs : Bool) (s' : St)
     (hi : NickInv s n T) (hw : WNSave nm t nk) (hs : save s t nk i rs = .ok s') : NickInv s' n T := by
   obtain ⟨-, -, rfl⟩ := save_ok hs
-  obtain ⟨hwt, hwn⟩ := wnSave_iff hw
-  have htn : n ≠ t := by intro e; rw [e, hwt] at hn; cases hn
+  have hwn := wnSave_iff hw
   by_cases hnk : nk = some n
   · subst hnk
-    have htT : t = T := by have := hwn n rfl; rw [hn] at this; exact (Option.some.inj this).symm
+    have htT : t = T := hwn n rfl T hn
     subst htT
-    refine ⟨?_, ?_, ?_, ?_, ?_, ?_, ?_⟩
+    refine ⟨?_, ?_, ?_, ?_, ?_, ?_⟩
     · intro r hr hrn
       simp only [List.mem_append, List.mem_singleton] at hr
       rcases hr with hr | rfl
@@ -352,7 +368,6 @@ theorem nickInv_save (nm : List (Name × Name)) (n T : Name) (hn : nm.lookup n =
       · have : k = s.nickCtr n + 1 := by omega
         subst this
         exact ⟨newRow s t (some n) i rs, by simp, rfl, rfl⟩
-    · simp [newTableCtr, newNickCtr]
     · have := hi.lc
       simp only [newNickCtr, upd_same]
       omega
@@ -376,26 +391,19 @@ theorem nickInv_save (nm : List (Name × Name)) (n T : Name) (hn : nm.lookup n =
       | some n' =>
         have : n ≠ n' := fun e => hnk (by rw [e])
         simp [newNickCtr, upd_other _ _ _ _ this]
-    have htc : newTableCtr s t nk i n = s.tableCtr n := by
-      cases nk with
-      | none => simp [newTableCtr, upd_other _ _ _ _ htn]
-      | some n' =>
-        have : n ≠ n' := fun e => hnk (by rw [e])
-        simp [newTableCtr, upd_other _ _ _ _ this, upd_other _ _ _ _ htn]
     have hold : ∀ r ∈ s.rows ++ [newRow s t nk i rs], r.nick = some n → r ∈ s.rows := by
       intro r hr hrn
       simp only [List.mem_append, List.mem_singleton] at hr
       rcases hr with hr | rfl
       · exact hr
       · exact absurd hrn hnk
-    refine ⟨?_, ?_, ?_, ?_, ?_, ?_, ?_⟩
+    refine ⟨?_, ?_, ?_, ?_, ?_, ?_⟩
     · intro r hr hrn; exact hi.tbl r (hold r hr hrn) hrn
     · intro r hr hrn; simp only [hnc]; exact hi.ordle r (hold r hr hrn) hrn
     · intro k hk1 hk2
       simp only [hnc] at hk2
       obtain ⟨r, hr, h1, h2⟩ := hi.ex k hk1 hk2
       exact ⟨r, by simp [hr], h1, h2⟩
-    · simp only [hnc, htc]; exact hi.tc
     · simp only [hnc]; exact hi.lc
     · intro r hr hrn k hk; exact hi.win r (hold r hr hrn) hrn k hk
     · intro r hr
@@ -405,50 +413,39 @@ theorem nickInv_save (nm : List (Name × Name)) (n T : Name) (hn : nm.lookup n =
       · exact Nat.le_refl _
 
 theorem nickInv_reset (s : St) (n T : Name) (hi : NickInv s n T) : NickInv (resetLocals s) n T := by
-  refine ⟨hi.tbl, hi.ordle, hi.ex, hi.tc, ?_, ?_, ?_⟩
-  · simp only [resetLocals]; rw [hi.tc]; exact Nat.le_refl _
+  refine ⟨hi.tbl, hi.ordle, hi.ex, ?_, ?_, ?_⟩
+  · simp only [resetLocals]; exact Nat.le_refl _
   · intro r hr hrn k hk
     simp only [resetLocals]
     obtain ⟨k', h1, h2, h3⟩ := hi.ordle r hr hrn
     rw [hk] at h1
     have hkk : k = k' := Option.some.inj h1
     have := hi.ep r hr
-    rw [hi.tc]
     constructor <;> intro <;> omega
   · intro r hr
     have := hi.ep r hr
     simp only [resetLocals]; omega
 
 theorem nickInv_step (nm : List (Name × Name)) (n T : Name) (hn : nm.lookup n = some T)
-    (s : St) (op : Op) (s1 : St) (o : Obs) (hnm : s.nickToTable = nm) (hi : NickInv s n T)
+    (s : St) (op : Op) (s1 : St) (o : Obs) (hi : NickInv s n T)
     (hw : WellNamedOp nm op) (h : step s op = .ok (s1, o)) : NickInv s1 n T :=
   step_lift nm (fun s => NickInv s n T) (fun _ _ _ _ => True)
-    (fun s t nk i rs s' _ hp hw _ hs => nickInv_save nm n T hn s t nk i rs s' hp hw hs)
-    (fun s hp => nickInv_reset s n T hp) (fun _ _ _ _ _ _ _ _ _ _ _ _ => trivial)
-    s op s1 o hnm hi hw (by cases op <;> simp) h
+    (fun s t nk i rs s' hp hw _ hs => nickInv_save nm n T hn s t nk i rs s' hp hw hs)
+    (fun s hp => nickInv_reset s n T hp) (fun _ _ _ _ _ _ _ _ _ => trivial)
+    s op s1 o hi hw (by cases op <;> simp) h
 
 theorem nickInv_init (counters : List (Name × Nat)) (tables : List Name) (nickmap : List (Name × Name))
-    (n T : Name) (h0 : ctrOf counters n = 0) : NickInv (init counters tables nickmap) n T := by
-  refine ⟨?_, ?_, ?_, ?_, ?_, ?_, ?_⟩ <;> simp [init, h0]
+    (n T : Name) : NickInv (init counters tables nickmap) n T := by
+  refine ⟨?_, ?_, ?_, ?_, ?_, ?_⟩ <;> simp [init]
   intro k h1 h2; omega
 
 /-! ### table counters -/
 
-theorem newTableCtr_table (nm : List (Name × Name)) (s : St) (t : Name) (nk : Option Name) (i : Nat)
-    (T : Name) (hT : nm.lookup T = none) (hwn : ∀ n, nk = some n → nm.lookup n = some t) :
+theorem newTableCtr_table (s : St) (t : Name) (nk : Option Name) (i : Nat) (T : Name) :
     newTableCtr s t nk i T = if T = t then max i (s.tableCtr T) else s.tableCtr T := by
   by_cases hTt : T = t
-  · subst hTt
-    cases nk with
-    | none => simp [newTableCtr, upd, saveTableCtr]
-    | some n' =>
-      have : T ≠ n' := by intro e; have := hwn n' rfl; rw [← e, hT] at this; cases this
-      simp [newTableCtr, upd, this, saveTableCtr]
-  · cases nk with
-    | none => simp [newTableCtr, upd, saveTableCtr, hTt]
-    | some n' =>
-      have : T ≠ n' := by intro e; have := hwn n' rfl; rw [← e, hT] at this; cases this
-      simp [newTableCtr, upd, this, saveTableCtr, hTt]
+  · subst hTt; simp [newTableCtr, upd, saveTableCtr]
+  · simp [newTableCtr, upd, saveTableCtr, hTt]
 
 /-- Basic order facts, valid for every op sequence: the window bound never exceeds the counter,
     every saved id is covered by the counter, rows of earlier windows and ids of earlier runs lie
@@ -464,7 +461,7 @@ theorem ordInv_save (nm : List (Name × Name)) (T : Name) (hT : nm.lookup T = no
     (s : St) (t : Name) (nk : Option Name) (i : Nat) (rs : Bool) (s' : St)
     (hi : OrdInv s T) (hw : WNSave nm t nk) (hs : save s t nk i rs = .ok s') : OrdInv s' T := by
   obtain ⟨-, -, rfl⟩ := save_ok hs
-  have htc := newTableCtr_table nm s t nk i T hT (wnSave_iff hw).2
+  have htc := newTableCtr_table s t nk i T
   refine ⟨?_, ?_, ?_, hi.pri, ?_⟩
   · have := hi.le
     simp only [htc]; split <;> omega
@@ -499,12 +496,12 @@ theorem ordInv_reset (s : St) (T : Name) (hi : OrdInv s T) : OrdInv (resetLocals
     simp only [resetLocals]; omega
 
 theorem ordInv_step (nm : List (Name × Name)) (T : Name) (hT : nm.lookup T = none)
-    (s : St) (op : Op) (s1 : St) (o : Obs) (hnm : s.nickToTable = nm) (hi : OrdInv s T)
+    (s : St) (op : Op) (s1 : St) (o : Obs) (hi : OrdInv s T)
     (hw : WellNamedOp nm op) (h : step s op = .ok (s1, o)) : OrdInv s1 T :=
   step_lift nm (fun s => OrdInv s T) (fun _ _ _ _ => True)
-    (fun s t nk i rs s' _ hp hw _ hs => ordInv_save nm T hT s t nk i rs s' hp hw hs)
-    (fun s hp => ordInv_reset s T hp) (fun _ _ _ _ _ _ _ _ _ _ _ _ => trivial)
-    s op s1 o hnm hi hw (by cases op <;> simp) h
+    (fun s t nk i rs s' hp hw _ hs => ordInv_save nm T hT s t nk i rs s' hp hw hs)
+    (fun s hp => ordInv_reset s T hp) (fun _ _ _ _ _ _ _ _ _ => trivial)
+    s op s1 o hi hw (by cases op <;> simp) h
 
 theorem ordInv_init (counters : List (Name × Nat)) (tables : List Name) (nickmap : List (Name × Name))
     (T : Name) : OrdInv (init counters tables nickmap) T := by
@@ -588,7 +585,7 @@ theorem mono_save (nm : List (Name × Name)) (T : Name) (hT : nm.lookup T = none
     (hle : s.localCtr T ≤ s.tableCtr T) (hw : WNSave nm t nk) (hs : save s t nk i rs = .ok s') :
     Mono T s s' := by
   obtain ⟨-, -, rfl⟩ := save_ok hs
-  have htc := newTableCtr_table nm s t nk i T hT (wnSave_iff hw).2
+  have htc := newTableCtr_table s t nk i T
   refine ⟨?_, Nat.le_refl _, ?_, Or.inl rfl⟩
   · simp only [htc]; split <;> omega
   · simp only [htc]; split <;> omega
@@ -635,11 +632,11 @@ def FreshInv (s : St) (T : Name) : Prop :=
   ∀ r ∈ s.rows, r.table = T → r.since = s.epoch → r.resaved = false → s.localCtr T < r.id
 
 theorem freshInv_step (nm : List (Name × Name)) (T : Name)
-    (s : St) (op : Op) (s1 : St) (o : Obs) (hnm : s.nickToTable = nm) (hi : FreshInv s T)
+    (s : St) (op : Op) (s1 : St) (o : Obs) (hi : FreshInv s T)
     (hw : WellNamedOp nm op) (hc : FreshOp s op) (h : step s op = .ok (s1, o)) : FreshInv s1 T := by
   refine step_lift nm (fun s => FreshInv s T) (fun s t i rs => rs = false → s.localCtr t < i)
-    ?_ ?_ ?_ s op s1 o hnm hi hw ?_ h
-  · intro s t nk i rs s' _ hp _ hsc hs
+    ?_ ?_ ?_ s op s1 o hi hw ?_ h
+  · intro s t nk i rs s' hp _ hsc hs
     obtain ⟨-, -, rfl⟩ := save_ok hs
     constructor
     · intro r hr
@@ -661,7 +658,7 @@ theorem freshInv_step (nm : List (Name × Name)) (T : Name)
       have := hp.1 r hr
       simp only [resetLocals] at h2
       omega
-  · intro _ _ _ _ _ _ _ _ _ _ _ _ hf; cases hf
+  · intro _ _ _ _ _ _ _ _ _ hf; cases hf
   · cases op with
     | save t nk i => intro _; exact hc
     | resave rows => intro x _ hf; cases hf
@@ -688,7 +685,7 @@ theorem tableInv_save (nm : List (Name × Name)) (T : Name) (hT : nm.lookup T = 
     (hi : TableInv s T) (hw : WNSave nm t nk) (hd : DenseSave s t i rs)
     (hs : save s t nk i rs = .ok s') : TableInv s' T := by
   obtain ⟨-, -, rfl⟩ := save_ok hs
-  have htc := newTableCtr_table nm s t nk i T hT (wnSave_iff hw).2
+  have htc := newTableCtr_table s t nk i T
   have hep : ∀ r ∈ s.rows ++ [newRow s t nk i rs], r.since ≤ s.epoch := by
     intro r hr
     simp only [List.mem_append, List.mem_singleton] at hr
@@ -782,15 +779,15 @@ theorem tableInv_reset (s : St) (T : Name) (hi : TableInv s T) : TableInv (reset
     simp only [resetLocals]; omega
 
 theorem tableInv_step (nm : List (Name × Name)) (T : Name) (hT : nm.lookup T = none)
-    (s : St) (op : Op) (s1 : St) (o : Obs) (hnm : s.nickToTable = nm) (hi : TableInv s T)
+    (s : St) (op : Op) (s1 : St) (o : Obs) (hi : TableInv s T)
     (hw : WellNamedOp nm op) (hd : DenseOp s op) (h : step s op = .ok (s1, o)) : TableInv s1 T := by
   refine step_lift nm (fun s => TableInv s T) DenseSave
-    (fun s t nk i rs s' _ hp hw hsc hs => tableInv_save nm T hT s t nk i rs s' hp hw hsc hs)
-    (fun s hp => tableInv_reset s T hp) ?_ s op s1 o hnm hi hw ?_ h
-  · intro s t nk i s' t' i' _ hw ht' hs hsc
+    (fun s t nk i rs s' hp hw hsc hs => tableInv_save nm T hT s t nk i rs s' hp hw hsc hs)
+    (fun s hp => tableInv_reset s T hp) ?_ s op s1 o hi hw ?_ h
+  · intro s t nk i s' t' i' hs hsc
     simp only [DenseSave, if_true] at hsc ⊢
     obtain ⟨-, -, rfl⟩ := save_ok hs
-    have := newTableCtr_table nm s t nk i t' ht' (wnSave_iff hw).2
+    have := newTableCtr_table s t nk i t'
     simp only [this]
     split <;> omega
   · cases op with
